@@ -138,6 +138,9 @@ func (w *VerifWorld) note(err error) {
 func (w *VerifWorld) Send(vc *VerifConn, data []byte) {
 	for len(data) > 0 {
 		n, err := unix.Write(vc.Peer, data)
+		if err == unix.EPIPE || err == unix.ECONNRESET {
+			return // the proxy has closed this connection: the bytes go nowhere
+		}
 		if err != nil {
 			panic("verif: harness-side write failed: " + err.Error())
 		}
@@ -145,13 +148,25 @@ func (w *VerifWorld) Send(vc *VerifConn, data []byte) {
 	}
 }
 
+// registered: epoll only reports descriptors the event loop still has registered.
+func (w *VerifWorld) registered(vc *VerifConn) bool {
+	c, ok := w.El.connections[vc.Fd]
+	return ok && c == vc.C
+}
+
 // Readable delivers a readable event for the connection to the real event-loop callback.
 func (w *VerifWorld) Readable(vc *VerifConn) {
+	if !w.registered(vc) {
+		return
+	}
 	w.note(w.El.callback(vc.Fd, netpoll.InEvents&^netpoll.ErrEvents))
 }
 
 // Writable delivers a writable event.
 func (w *VerifWorld) Writable(vc *VerifConn) {
+	if !w.registered(vc) {
+		return
+	}
 	w.note(w.El.callback(vc.Fd, netpoll.OutEvents&^netpoll.ErrEvents))
 }
 
@@ -248,3 +263,9 @@ func (vc *VerifConn) OutboundBuffered() int {
 }
 
 func (vc *VerifConn) InboundBuffered() int { return vc.C.inboundBuffer.Buffered() }
+
+// SetLimits sets the request and reply size limits independently (production sets both from one option).
+func (w *VerifWorld) SetLimits(req, rsp int) {
+	EngineGlobal.cCodec.MsgMaxLength = req
+	EngineGlobal.sCodec.MsgMaxLength = rsp
+}
